@@ -1,8 +1,109 @@
-(* C11 — Error kinds survive wrapping and serialisation.  Property theorems only. *)
-From Coq Require Import List ZArith Bool.
+(* C11 — Error kinds survive wrapping and serialisation.
+   Property theorems only: each is closed by [exact] of a lemma of Proofs.v and followed by Print Assumptions.
+   Model: GU.C11.Model over the table GU.C11.Gen, which translator-c11/cmd/errkinds2coq regenerates from
+   utils/commonerrors/errors.go + serialisation.go on every run; tied to the code additionally by the correspondence
+   runs of harness/cmd/c11.  [given e k] = "e is a sentinel or was built by New / Newf / Errorf / WrapError /
+   WrapIfNotCommonError, to any nesting depth, with any messages (any bytes), and k is the kind it was given". *)
+From Coq Require Import List ZArith Bool Lia.
 Import ListNotations.
 From GU Require Import C11.Gen C11.Bytes C11.Model C11.Proofs.
+Local Open Scope Z_scope.
 
+(* Every constructed error is recognised by errors.Is and by Any as the kind it was given — and as no other kind, and
+   not as a raw context error — and IsCommonError accepts it.  Unbounded: any depth, any mix, any messages. *)
+Theorem constructors_keep_kind : forall e k, given e k ->
+  is e (TK k) = true /\ any (Some e) [TK k] = true /\ exactly e k /\ is_common (Some e) = true.
+Proof. exact constructors_keep_kind_l. Qed.
+Print Assumptions constructors_keep_kind.
+
+(* A cause that is a cancellation or a deadline — context.Canceled / DeadlineExceeded raw or under foreign wrappers,
+   or an error the library already classified as cancelled / timeout — is never reclassified: for EVERY target
+   (nil, any kind, anything at all) the wrappers return an error of exactly the cause's kind. *)
+Theorem context_cause_wins : forall t c k m, ctx_cause c k ->
+  exactly (wrap_error t (Some c) m) k /\ exactly (wrap_if_not_common t (Some c) m) k /\
+  exactly (new (Some c) m) k /\ exactly (errorf (Some c) m) k /\ exactly (newf (Some c) m) k.
+Proof. exact context_cause_wins_l. Qed.
+Print Assumptions context_cause_wins.
+
+(* The 30-way switch of deserialiseCommonError (cases in SOURCE ORDER, from the generated table) maps the text of every
+   kind of the generated sentinel list back to that kind.  The bound is the table. *)
 Theorem deser_table_total : forall k, (k < nkinds)%nat -> deser_common (ktext k) = (true, Some k).
 Proof. exact deser_table_total_l. Qed.
 Print Assumptions deser_table_total.
+
+(* No kind text is empty, contains the type/reason separator or the line separator, or has blanks at its ends. *)
+Theorem kind_text_no_separator : forall k, (k < nkinds)%nat ->
+  ktext k <> [] /\ mem sep (ktext k) = false /\ mem nl (ktext k) = false /\ trim_right (ktext k) = ktext k /\
+  exists c r, ktext k = c :: r /\ is_space c = false.
+Proof. exact kind_text_ok_l. Qed.
+Print Assumptions kind_text_no_separator.
+
+(* Serialise then deserialise: for every constructed error — any depth, any messages, multi-line included — the
+   result is recognised as the kind the error was given. *)
+Theorem roundtrip_kind : forall e k, given e k -> dres_is (deserialise (serialise e)) (TK k) = true.
+Proof. exact roundtrip_kind_l. Qed.
+Print Assumptions roundtrip_kind.
+
+(* Single error whose text is a single line "<kind><r>": the round trip yields ONE error, of exactly that kind (no
+   other kind appears), with text "<kind>: <reason>" and reason = the part after the first separator with every
+   colon-separated part trimmed ([reason_part r]).  Holds at any nesting depth (this is what the patch repairs). *)
+Theorem roundtrip_reason : forall e k r, given e k -> text e = ktext k ++ r -> mem nl (text e) = false ->
+  exists d, deserialise (serialise e) = DOne d /\ exactly d k /\ text d = mtext k (reason_part r) /\
+            reason_of_text (text d) = reason_part r /\ dres_kinds (deserialise (serialise e)) = [[k]].
+Proof. exact roundtrip_single_l. Qed.
+Print Assumptions roundtrip_reason.
+
+(* ... in particular New(kind, m): the reason that comes back is m up to whitespace around colons. *)
+Theorem roundtrip_reason_new : forall k m, (k < nkinds)%nat -> mem nl m = false ->
+  exists d, deserialise (serialise (new (Some (Sent k)) m)) = DOne d /\ exactly d k /\
+            reason_of_text (text d) = normalise m.
+Proof. exact roundtrip_reason_new_l. Qed.
+Print Assumptions roundtrip_reason_new.
+
+(* Joins of 1..n constructed errors (n unbounded) with single-line texts: the round trip yields one error per joined
+   error, in order, each of exactly the kind the corresponding error was given — the same kinds. *)
+Theorem roundtrip_join_kinds : forall ps : list (err * nat), ps <> [] ->
+  Forall (fun p => given (fst p) (snd p) /\ mem nl (text (fst p)) = false) ps ->
+  dres_kinds (deserialise (serialise_join (map fst ps))) = map (fun p => [snd p]) ps.
+Proof. exact roundtrip_join_kinds_l. Qed.
+Print Assumptions roundtrip_join_kinds.
+
+(* Converters.  Full statement planned (DESIGN.md, converters_stable): "each converter is idempotent, lets context errors
+   through, and maps every backend condition in its table to one kind".  Proved here: ConvertIOError completely
+   (idempotent; a context error becomes exactly cancelled / timeout; io.EOF / io.ErrUnexpectedEOF, bare or wrapped,
+   become exactly ErrEOF); for the rule-list converters (ConvertFileSystemError, ConvertProcessError), WHATEVER their
+   rule predicates are: a context cause passes as exactly its kind; otherwise the first matching rule decides and the
+   result is of exactly that rule's kind; no rule = the error as it was.  Missing (hence _partial): which backend value
+   satisfies which predicate, and kind-level idempotence of the two rule-list converters (it depends on the text
+   predicates); both are checked on the implementation by the harness against a table of every value they mention. *)
+Theorem converters_stable_partial :
+  (forall e, convert_io (convert_io e) = convert_io e /\
+             (forall k, ctx_kind_of e = Some k -> convert_io e = Sent k) /\
+             (ctx_kind_of e = None -> any (Some e) io_targets = true -> exactly (convert_io e) ErrEOF)) /\
+  (forall rs e,
+     (forall k, ctx_cause e k -> exactly (convert_rules rs e) k) /\
+     (forall k m, any (Some (convert_ctx e)) ctx_kinds = false -> first_rule rs (convert_ctx e) = Some (k, m) ->
+                  exactly (convert_rules rs e) k /\ is_common (Some (convert_rules rs e)) = is_common (Some (Sent k))) /\
+     (any (Some (convert_ctx e)) ctx_kinds = false -> first_rule rs (convert_ctx e) = None ->
+                  convert_rules rs e = convert_ctx e)).
+Proof. split; [exact convert_io_l | exact convert_rules_l]. Qed.
+Print Assumptions converters_stable_partial.
+
+(* Non-vacuity and the defect D18: the code BEFORE the patch ([serialise_gen false]) duplicates the reason of
+   New(New(invalid,"foo"),"bar"); the patched code does not. *)
+Example unfixed_nested_reason_refuted :
+  exists k m1 m2, (k < nkinds)%nat /\
+    let e := new (Some (new (Some (Sent k)) m1)) m2 in
+    reason_of_text (dres_text (deserialise (serialise_gen false e))) <> reason_part (skipn (length (ktext k)) (text e))
+    /\ reason_of_text (dres_text (deserialise (serialise_gen true e))) = reason_part (skipn (length (ktext k)) (text e)).
+Proof. exact unfixed_nested_reason_refuted_l. Qed.
+
+Example given_example :
+  given (wrap_if_not_common (Some (Sent ErrInvalid)) (Some (wrap_error (Some (Sent ErrNotFound)) (Some CtxCanceled) [109])) [120]) ErrCancelled.
+Proof.
+  apply (G_wrapinc _ _ ErrInvalid (Some ErrCancelled)).
+  - apply A_given. constructor. vm_compute. lia.
+  - apply C_given. apply (G_wrap _ _ ErrNotFound (Some ErrCancelled)).
+    + apply A_given. constructor. vm_compute. lia.
+    + apply C_ctx. reflexivity.
+Qed.
